@@ -235,6 +235,32 @@ func ApplyEdits(r *vh.Rand, b *Bundle, pkg string, n int) []EditRec {
 	for len(recs) < n {
 		msgs, enums, files := sites(b, pkg)
 		switch k := r.Intn(100); {
+		case k < 12 && len(msgs) > 0: // field with an inline type named like a type the message already refers to
+			var cands []msgSite
+			var names []string
+			for _, m := range msgs {
+				sc := scopeOfMessage(m.path, *m.props, m.subs, m.inOneof)
+				for _, p := range *m.props {
+					f := p.F
+					if f.Item != nil {
+						f = f.Item
+					}
+					if (f.Kind == "objref" || f.Kind == "enumref" || f.Kind == "oneofref") && (f.Ref.Pkg == "" || f.Ref.Pkg == pkg) && !sc.symbols[f.Ref.Name] {
+						cands = append(cands, m)
+						names = append(names, f.Ref.Name)
+					}
+				}
+			}
+			if len(cands) == 0 {
+				continue
+			}
+			i := r.Intn(len(cands))
+			site := cands[i]
+			sc := scopeOfMessage(site.path, *site.props, site.subs, site.inOneof)
+			p := &Property{Name: g.fieldName(sc), F: &Field{Kind: "objinline", Name: names[i],
+				Props: []*Property{{Name: "v", F: &Field{Kind: "scalar", Scalar: &Scalar{Kind: "string"}}}}}}
+			*site.props = append(*site.props, p)
+			recs = append(recs, EditRec{"field", site.desc, p.Name + " objinline named like referenced type " + names[i]})
 		case k < 55 && len(msgs) > 0: // field
 			site := vh.Pick(r, msgs)
 			sc := scopeOfMessage(site.path, *site.props, site.subs, site.inOneof)
@@ -247,10 +273,18 @@ func ApplyEdits(r *vh.Rand, b *Bundle, pkg string, n int) []EditRec {
 		case k < 75 && len(enums) > 0: // option
 			site := vh.Pick(r, enums)
 			syms := site.symbols()
-			o := vh.Pick(r, optWords) + fmt.Sprint(r.Intn(50))
 			pfx := site.e.Prefix
 			if pfx == "" {
 				pfx = strcase.ToScreamingSnake(site.name) + "_"
+			}
+			o := vh.Pick(r, optWords) + fmt.Sprint(r.Intn(50))
+			switch k := r.Intn(100); {
+			case k < 20:
+				o = vh.Pick(r, optWords) + "_UNSPECIFIED" // ends like the zero value, is not the zero value
+			case k < 30:
+				o = pfx + o // spelled with the prefix already on
+			case k < 36:
+				o = "UNSPECIFIED" + fmt.Sprint(r.Intn(9))
 			}
 			if syms[pfx+o] {
 				continue
